@@ -235,6 +235,7 @@ theorem exec_forIn (i : Nat) (e : Ex) (body : St) : exec h Q call self (.forIn i
     (match eval self st.vars st.logs.length e with
      | some (.graphs gs) => forLoop i (fun s => exec h Q call self body s) (gs.map .graph) st
      | some (.meths ms) => forLoop i (fun s => exec h Q call self body s) (ms.map .meth) st
+     | some (.ids l) => forLoop i (fun s => exec h Q call self body s) (l.map (fun y => .obj (some y))) st
      | _ => (st, .stuck)) := rfl
 theorem exec_tryS (body handler orelse : St) : exec h Q call self (.tryS body handler orelse) st =
     (match exec h Q call self body st with
